@@ -44,20 +44,26 @@ func (c ActCase) dim() int {
 	return c.Dim
 }
 
-func (c ActCase) forward(x tensor.Tensor) (tensor.Tensor, error) {
+// layer constructs one activation object and returns its Forward; callers keep using the
+// same object for every round of a case.
+func (c ActCase) layer() (func(x tensor.Tensor) (tensor.Tensor, error), error) {
 	switch c.Kind {
 	case "relu":
-		return activations.NewRelu().Forward(x)
+		l := activations.NewRelu()
+		return func(x tensor.Tensor) (tensor.Tensor, error) { return l.Forward(x) }, nil
 	case "leaky":
 		var conf *activations.LeakyReluConfig
 		if !c.NilConf {
 			conf = &activations.LeakyReluConfig{M: c.M}
 		}
-		return activations.NewLeakyRelu(conf).Forward(x)
+		l := activations.NewLeakyRelu(conf)
+		return func(x tensor.Tensor) (tensor.Tensor, error) { return l.Forward(x) }, nil
 	case "sigmoid":
-		return activations.NewSigmoid().Forward(x)
+		l := activations.NewSigmoid()
+		return func(x tensor.Tensor) (tensor.Tensor, error) { return l.Forward(x) }, nil
 	case "tanh":
-		return activations.NewTanh().Forward(x)
+		l := activations.NewTanh()
+		return func(x tensor.Tensor) (tensor.Tensor, error) { return l.Forward(x) }, nil
 	}
 	var conf *activations.SoftmaxConfig
 	if !c.NilConf {
@@ -67,7 +73,15 @@ func (c ActCase) forward(x tensor.Tensor) (tensor.Tensor, error) {
 	if err != nil {
 		return nil, err
 	}
-	return sm.Forward(x)
+	return func(x tensor.Tensor) (tensor.Tensor, error) { return sm.Forward(x) }, nil
+}
+
+func (c ActCase) forward(x tensor.Tensor) (tensor.Tensor, error) {
+	f, err := c.layer()
+	if err != nil {
+		return nil, err
+	}
+	return f(x)
 }
 
 var actKinds = []string{"relu", "leaky", "sigmoid", "tanh", "softmax", "softmax"}
@@ -98,7 +112,7 @@ func genActShape(t *rapid.T, c *ActCase) []int {
 	if c.Kind == "softmax" {
 		minRank = 1
 	}
-	s := prog.DrawShapeN(t, minRank, 5, 4, 200, true)
+	s := prog.DrawShapeN(t, minRank, 5, 4, 200, rapid.Bool().Draw(t, "distinctdims"))
 	c.NilConf = rapid.IntRange(0, 4).Draw(t, "nilconf") == 0
 	if c.Kind == "leaky" {
 		c.M = rapid.SampledFrom([]float64{0.01, 0.2, 0, 1, -0.5, 3, 1e-6}).Draw(t, "m")
@@ -136,7 +150,19 @@ func checkC14(c ActCase) *Failure {
 		}
 	}
 	x := lib.MustNew(l.Shape, l.Vals, l.Tracked)
-	y, err := c.forward(x)
+	fw, err := c.layer()
+	if err != nil {
+		return failf("constructor of %s rejected a valid configuration: %v", c.Kind, err)
+	}
+	// a first call on other data of the same shape, then the call under test on the same object
+	warm := make([]float64, len(l.Vals))
+	for i := range warm {
+		warm[i] = -0.5 * l.Vals[len(warm)-1-i]
+	}
+	if _, err := fw(lib.MustNew(l.Shape, warm, !l.Tracked)); err != nil {
+		return failf("%s.Forward rejected an input of shape %v: %v", c.Kind, l.Shape, err)
+	}
+	y, err := fw(x)
 	if err != nil {
 		return failf("%s.Forward rejected an input of shape %v: %v", c.Kind, l.Shape, err)
 	}
@@ -346,11 +372,29 @@ func checkC15(c ActCase) *Failure {
 			lo, _ = eval(c.slope(), false)
 		}
 	}
+	fw, err := c.layer()
+	if err != nil {
+		return nil
+	}
+	// warm-up round on the same object: forward and back-propagate other data of this shape
+	{
+		wl, err := prog.RunLib(c.Up)
+		if err != nil {
+			return failf("upstream program rejected: %v", err)
+		}
+		wy, err := fw(wl[xid])
+		if err != nil {
+			return failf("%s.Forward rejected an input of shape %v: %v", c.Kind, lo.vals[xid].Shape, err)
+		}
+		if err := tensor.BackPropagate(wy); err != nil {
+			return failf("BackPropagate through %s returned error: %v", c.Kind, err)
+		}
+	}
 	lv, err := prog.RunLib(c.Up)
 	if err != nil {
 		return failf("upstream program rejected: %v", err)
 	}
-	y, err := c.forward(lv[xid])
+	y, err := fw(lv[xid])
 	if err != nil {
 		return failf("%s.Forward rejected an input of shape %v: %v", c.Kind, lo.vals[xid].Shape, err)
 	}
